@@ -79,8 +79,26 @@ def gen(rng, index, tier):
     allow = None
     if flt == "allow":
         allow = rng.sample(ALLOW_NAMES + [spec["pkg"]], rng.choice([1, 2, 3]))
-    return {"mode": "run", "prog": spec, "script": script, "filter": flt, "allow": allow, "subset_seed": rng.getrandbits(32),
+    plan = {"mode": "run", "prog": spec, "script": script, "filter": flt, "allow": allow, "subset_seed": rng.getrandbits(32),
             "custom_admits_main": rng.random() < 0.5}
+    r2 = rng
+    # top-level project modules the script imports (names chosen among ones that are textually contained in "__main__")
+    plan["top_modules"] = r2.sample(TOP_NAMES, r2.choice([0, 1, 2, 3]))
+    plan["custom_admits_top"] = r2.random() < 0.5
+    if plan["top_modules"] and flt == "allow" and r2.random() < 0.4:
+        plan["allow"] = sorted(set(allow) | {r2.choice(plan["top_modules"])})
+    # dynamic code churn inside the session: functions compiled at run time (template engines, dataclass-style exec, reloads), dropped and
+    # re-created; code objects the filter rejects and ones it accepts are freed / allocated alternately
+    if r2.random() < 0.4:
+        plan["dyn"] = [[r2.choice(["acc", "rej", "rej"]), r2.randrange(len(DYN_VALUES))] for _ in range(r2.randint(2, 12))]
+    return plan
+
+
+TOP_NAMES = ["main", "ma", "a", "n", "mai", "in_", "topmod", "main_app"]
+DYN_VALUES = [1, "s", 2.5, None, b"b", (1,), [1], True]
+DYN_SRC = "def dyn(x):\n    y = (x, 1)\n    return y\n"
+# same size, different constant: the two code objects must not compare equal (that would be the listed verdict-cache finding)
+DYN_SRC_REJ = "def dyn(x):\n    y = (x, 2)\n    return y\n"
 
 
 # ---------------------------------------------------------------------------------------------
@@ -125,8 +143,19 @@ def allow_verdict(filename, names):
 # mode 'run'
 
 
+TOP_SRC = '''\
+def top_helper(x):
+    return [x, "@NAME@"]
+
+
+class TopThing:
+    def method(self, y):
+        return top_helper(y), "@NAME@"
+'''
+
 SCRIPT = '''\
 import json
+import sys
 import textwrap
 import mypy_extensions
 from dst.world import runslot
@@ -141,13 +170,35 @@ class MainThing:
         return main_helper(y)
 
 
+def top_modules():
+    for name in runslot.SLOT.get("top_modules", ()):
+        mod = __import__(name)
+        mod.top_helper(1)
+        mod.TopThing().method("s")
+
+
+def dynamic_churn():
+    spec = runslot.SLOT.get("dyn")
+    if not spec:
+        return
+    for kind, val in spec["ops"]:
+        ns = sys.modules[spec["module"]].__dict__ if kind == "acc" else {"__name__": "dynrej_verif"}
+        exec(compile(spec["src"] if kind == "acc" else spec["src_rej"], spec["ok_file"] if kind == "acc" else "<dyn-rejected>", "exec"), ns)
+        ns["dyn"](val)
+        del ns["dyn"]
+        del ns
+
+
 def main_driver():
     main_helper(1)
     MainThing().method("s")
     json.dumps({"a": [1, 2]})
     textwrap.dedent("  x")
     mypy_extensions.trait(MainThing)
+    dynamic_churn()
+    top_modules()
     runslot.go()
+    dynamic_churn()
 
 
 main_driver()
@@ -187,6 +238,24 @@ def execute_run(plan):
         db = os.path.join(workdir, "traces.sqlite3")
         mode = plan["filter"]
         adm = None
+        topdir = os.path.join(workdir, "top")
+        os.makedirs(topdir)
+        top_files = {}
+        for name in plan.get("top_modules") or ():
+            top_files[name] = os.path.join(topdir, name + ".py")
+            with open(top_files[name], "w") as fh:
+                fh.write(TOP_SRC.replace("@NAME@", name))   # distinct constants: code objects of different files must not compare equal
+        runslot.SLOT["top_modules"] = list(plan.get("top_modules") or ())
+        dyn_file = os.path.join(topdir, "dynmod_verif.py")
+        if plan.get("dyn"):
+            with open(dyn_file, "w") as fh:
+                fh.write(DYN_SRC)
+            dm = types.ModuleType("dynmod_verif")
+            dm.__file__ = dyn_file
+            sys.modules["dynmod_verif"] = dm
+            runslot.SLOT["dyn"] = {"module": "dynmod_verif", "ok_file": dyn_file, "src": DYN_SRC, "src_rej": DYN_SRC_REJ, "ops": [[k, DYN_VALUES[i]] for k, i in plan["dyn"]]}
+        sys.path.insert(0, topdir)
+        importlib.invalidate_caches()
         if mode == "custom":
             import random
 
@@ -195,8 +264,10 @@ def execute_run(plan):
             codes = {id(lp.code_objs[fid]) for fid in adm if fid in lp.code_objs}
             admits_main = plan["custom_admits_main"]
 
-            def flt(code, _c=codes, _sp=script_path, _m=admits_main):
-                return id(code) in _c or (_m and code.co_filename == _sp)
+            top_ok = set(top_files.values()) if plan.get("custom_admits_top") else set()
+
+            def flt(code, _c=codes, _sp=script_path, _m=admits_main, _t=frozenset(top_ok | {dyn_file})):
+                return id(code) in _c or (_m and code.co_filename == _sp) or code.co_filename in _t
 
             admitted = lambda fid: fid in adm  # noqa: E731
         else:
@@ -293,7 +364,8 @@ def execute_run(plan):
             except Exception:
                 continue
             if mode == "custom":
-                viol("C17.only-admitted", None, dict(site, file=fn), "row for %s.%s, which the custom filter does not admit" % (module, qualname))
+                if not (fn in top_ok or fn == dyn_file):
+                    viol("C17.only-admitted", None, dict(site, file=fn), "row for %s.%s, which the custom filter does not admit" % (module, qualname))
             elif mode == "default":
                 if not default_verdict(fn, lib_roots):
                     viol("C17.only-admitted", None, dict(site, file=fn), "row for library code %s.%s (%s)" % (module, qualname, fn))
@@ -317,6 +389,41 @@ def execute_run(plan):
             if want and not have:
                 viol("C17.all-admitted", None, {"module": libmod, "function": fname, "allow": plan.get("allow")},
                      "%s.%s is in the allow-list and was called, but has no row" % (libmod, fname))
+        # ---- top-level project modules (whose names are contained in "__main__") and run-time compiled functions
+        def file_verdict(fn):
+            if mode == "custom":
+                return fn in top_ok or fn == dyn_file
+            if mode == "default":
+                return default_verdict(fn, lib_roots)
+            return allow_verdict(fn, plan["allow"])
+
+        logged = collections.Counter((getattr(tr.func, "__module__", None), getattr(tr.func, "__qualname__", None)) for tr, pos in (lg.logs if lg else []))
+        for name, fn in sorted(top_files.items()):
+            want = file_verdict(fn)
+            if want is None:
+                continue
+            for qn in ("top_helper", "TopThing.method"):
+                evaluated += 1
+                have = any(r[0] == name and r[1] == qn for r in rowset)
+                if want and not have:
+                    viol("C17.all-admitted", None, {"module": name, "function": qn, "filter": mode, "allow": plan.get("allow")},
+                         "%s.%s (%s) is admitted by the filter, is not __main__ and was called, but has no row" % (name, qn, fn))
+            probes["top-level module whose name is contained in '__main__'"] += 1 if name in "__main__" else 0
+        if plan.get("dyn"):
+            n_acc = 2 * sum(1 for k, i in plan["dyn"] if k == "acc")
+            want = file_verdict(dyn_file)
+            got = logged[("dynmod_verif", "dyn")]
+            evaluated += 1
+            if want is True and got != n_acc:
+                viol("C17.all-admitted", None, {"function": "dynmod_verif.dyn", "filter": mode, "expected": n_acc, "logged": got},
+                     "%d calls of run-time compiled functions that the filter admits completed, %d reached the logger" % (n_acc, got))
+            if want is False and got:
+                viol("C17.only-admitted", None, {"function": "dynmod_verif.dyn", "filter": mode, "logged": got},
+                     "%d calls of run-time compiled functions the filter rejects reached the logger" % got)
+            if logged[("dynrej_verif", "dyn")] or any(r[0] == "dynrej_verif" for r in rowset):
+                viol("C17.only-admitted", None, {"function": "dynrej_verif.dyn", "filter": mode},
+                     "a run-time compiled function with a synthetic file name, which the filter rejects, was recorded")
+            probes["run-time compiled code objects created and freed inside the session"] += 1
         # ---- every admitted, resolvable, completed fixture call outside __main__ has its row
         if lg is not None:
             judged = lambda fid: (True if mode != "allow" else allow_verdict(lp.code_objs[fid].co_filename, plan["allow"]) is not None) if fid in lp.code_objs else False  # noqa: E731
@@ -377,6 +484,13 @@ def execute_run(plan):
             pass
         P.unload(lp)
         runslot.SLOT.clear()
+        try:
+            sys.path.remove(os.path.join(workdir, "top"))
+        except ValueError:
+            pass
+        for name in list(plan.get("top_modules") or ()) + ["dynmod_verif"]:
+            sys.modules.pop(name, None)
+        importlib.invalidate_caches()
         shutil.rmtree(workdir, ignore_errors=True)
 
 
